@@ -148,3 +148,40 @@ def to_T(t, fmt_names, flat=FLAT):
                 acc = ["bin", k, acc, x]
             return acc
     return None
+
+
+def to_T2(t, all_names, flat=FLAT):
+    """tree over the whole renderer vocabulary -> T2 JSON for the Lean driver (None if outside it; IN / NOT IN are
+    left out of the text correspondence because their right operand is a list)"""
+    if isinstance(t, str):
+        return ["leaf", t, t]
+    if isinstance(t, bool):
+        return ["leaf", "True" if t else "False", t]
+    if isinstance(t, int):
+        return ["leaf", str(t), {"$i": str(t)}]
+    if isinstance(t, float):
+        return ["leaf", repr(t), {"$f": repr(t)}]
+    if isinstance(t, dict) and len(t) == 1:
+        k, v = next(iter(t.items()))
+        if k == "literal" and isinstance(v, str):
+            return ["leaf", "'" + v.replace("'", "''") + "'", ["$dict", ["literal", v]]]
+        if k not in all_names or k in ("in", "nin"):
+            return None
+        kind = all_names[k]
+        if kind in ("pre", "binA"):
+            x = to_T2(v, all_names)
+            return None if x is None else ["un", k, x]
+        if not isinstance(v, list):
+            return None
+        kids = [to_T2(x, all_names) for x in v]
+        if any(x is None for x in kids):
+            return None
+        if kind == "tern":
+            return ["tern", k] + kids if len(kids) == 3 else None
+        if len(kids) < 2:
+            return None
+        acc = kids[0]
+        for x in kids[1:]:
+            acc = ["bin", k, acc, x]
+        return acc
+    return None
